@@ -13,7 +13,7 @@ import tempfile
 
 from core import Harness
 
-from props.eval_common import FileLog, MemLog, ScriptRep, as_int, logging_ff, mk_ind, uid
+from props.eval_common import FileLog, LossyStrRep, MemLog, ScriptRep, as_int, logging_ff, mk_ind, uid
 
 from geneticengine.algorithms.gp.gp import GeneticProgramming, default_generic_programming_step
 from geneticengine.algorithms.gp.operators.combinators import ParallelStep, SequenceStep
@@ -230,7 +230,7 @@ def run_scenario(h: Harness, sc, evaluator_kind: str, tmpdir: str | None = None,
     else:
         log = MemLog()
     problems = [build_problem(s, log, t, delays) for t, s in enumerate(specs)]
-    inds = [mk_ind(i, k) for i, k in enumerate(keys)]
+    inds = [mk_ind(i, k, LossyStrRep([0]) if sc.get("lossy_str") else None) for i, k in enumerate(keys)]
     for (p, i) in sc["pre"]:
         if not inds[i].has_fitness(problems[p]):
             inds[i].set_fitness(problems[p], problems[p].evaluate(inds[i].get_phenotype()))
@@ -349,6 +349,10 @@ def check_parallel(h: Harness):
     with tempfile.TemporaryDirectory(prefix="c13-") as tmp:
         for k, sc in enumerate(scenarios):
             n = len(sc["keys"])
+            if k % 3 == 0:
+                # programs whose str() is the same for all of them: the fitness is a function of the program, not of its print-out
+                sc["lossy_str"] = True
+                h.count("par:programs-with-indistinguishable-str")
             skew = [0.0, 0.0, 0.01, 0.03, 0.06]
             delays = {i: rng.choice(skew) for i in range(n)}
             if k % 2 == 0:  # first worker slowest: completion order differs from submission order
